@@ -1,8 +1,6 @@
 import Ebu.Spec.Bus
-import Ebu.Proofs.BusRefine
 import Ebu.Proofs.BusFrame
-import Ebu.Proofs.BusPersist
-import Ebu.Proofs.BusObs
+import Ebu.Proofs.BusRefine
 /-!
 C01 — Publish reaches exactly the subscribed handlers, once each, in order
 
